@@ -130,15 +130,29 @@ def write_if_changed(path, text):
     return True
 
 
-def lean_sources_hash():
+def import_closure(modules):
+    """source files of the MenpoModel modules reachable from `modules` through `import MenpoModel.…` lines"""
+    seen, todo = {}, list(modules)
+    while todo:
+        m = todo.pop()
+        if m in seen or not m.startswith("MenpoModel"):
+            continue
+        path = os.path.join(LEAN, *m.split(".")) + ".lean"
+        if not os.path.exists(path):
+            continue
+        seen[m] = path
+        for ln in open(path):
+            mm = re.match(r"\s*(?:public\s+)?import\s+(MenpoModel[\w.]*)", ln)
+            if mm:
+                todo.append(mm.group(1))
+    return [seen[k] for k in sorted(seen)]
+
+
+def lean_sources_hash(modules):
     h = hashlib.sha256()
-    for d, dirs, files in sorted(os.walk(LEAN)):
-        dirs[:] = sorted(x for x in dirs if x != ".lake")
-        for fn in sorted(files):
-            if fn.endswith(".lean") or fn == "lakefile.toml":
-                p = os.path.join(d, fn)
-                h.update(p.encode())
-                h.update(open(p, "rb").read())
+    for p in import_closure(modules):
+        h.update(p.encode())
+        h.update(open(p, "rb").read())
     return h.hexdigest()
 
 
@@ -147,16 +161,12 @@ def strip_comments(src):
     return re.sub(r"--.*", "", src)
 
 
-def forbidden_scan():
+def forbidden_scan(modules):
     hits = []
-    for d, dirs, files in os.walk(LEAN):
-        dirs[:] = [x for x in dirs if x != ".lake"]
-        for fn in files:
-            if fn.endswith(".lean"):
-                p = os.path.join(d, fn)
-                for i, line in enumerate(strip_comments(open(p).read()).splitlines(), 1):
-                    if FORBIDDEN.search(line):
-                        hits.append("%s:%d: %s" % (os.path.relpath(p, ROOT), i, line.strip()))
+    for p in import_closure(modules):
+        for i, line in enumerate(strip_comments(open(p).read()).splitlines(), 1):
+            if FORBIDDEN.search(line):
+                hits.append("%s:%d: %s" % (os.path.relpath(p, ROOT), i, line.strip()))
     return hits
 
 
@@ -164,14 +174,14 @@ def axiom_audit(prop, imports, theorems):
     """`#print axioms` on every property theorem; cached by the hash of all Lean sources.
     Returns dict name -> sorted axiom list.  Raises Infra on anything outside the allowed set."""
     cache_path = os.path.join(LEAN, ".lake", "audit_%s.json" % prop)
-    key = lean_sources_hash() + "|" + ",".join(theorems)
+    key = lean_sources_hash(imports) + "|" + ",".join(theorems)
     try:
         c = json.load(open(cache_path))
         if c.get("key") == key:
             return c["axioms"]
     except (OSError, ValueError):
         pass
-    hits = forbidden_scan()
+    hits = forbidden_scan(imports)
     if hits:
         raise Infra("forbidden construct in Lean sources:\n" + "\n".join(hits))
     src = "".join("import %s\n" % m for m in imports) + "".join("#print axioms %s\n" % t for t in theorems)
@@ -292,6 +302,12 @@ class Ctx:
         if not cond:
             self.fail(site, pattern, text, replay)
         return cond
+
+    def scratch(self):
+        """a child context for shrinking / probing: records verdicts without touching this one"""
+        c = Ctx(self.prop, self.tier, self.seed)
+        c.known = []
+        return c
 
     # replay files -----------------------------------------------------------
     def write_replay(self, kind, payload):
